@@ -307,6 +307,7 @@ def method_call(self, recv, name, pos, kw, node, fr, star=None, dstar=None):
         self.emit('call', node, fr, name='.' + name, resolved=None, args=[recv] + pos, kwargs=kw, external=True,
                   method=True, recv=recv, recv_node=node.func.value)
         return self.numpy_call(name, [recv] + pos, kw)
+    cbound = None
     if _builtin_list(self, recv) and name in ('append', 'extend', 'insert', 'pop', 'sort', 'reverse', 'clear', 'remove',
                                               'index', 'count', 'copy'):
         # a list the function built itself: the method is the builtin one, not a package method of the same name
@@ -315,9 +316,19 @@ def method_call(self, recv, name, pos, kw, node, fr, star=None, dstar=None):
     else:
         # duck-typed: unique method of that name in the package
         cands = [c.methods[name] for c in self.prog.classes.values() if name in c.methods]
+        sigs = {tuple(c.all_params()[1:]) for c in cands}
+        cbound = None
+        if cands and len(sigs) == 1 and star is None and dstar is None and not cands[0].node.args.vararg \
+                and not cands[0].node.args.kwarg and not cands[0].is_staticmethod:
+            # every package method of that name has the same formals: positional and keyword spellings of the
+            # call bind identically
+            try:
+                cbound = self.bind_args(cands[0], pos, kw, fr, skip_first=True)
+            except Exception:
+                cbound = None
         self.emit('call', node, fr, name='.' + name, resolved=None, args=[recv] + pos, kwargs=kw, external=True,
                   method=True, recv=recv, recv_node=node.func.value, candidates=[c.short for c in cands],
-                  mutating=name in MUTATING_METHODS)
+                  mutating=name in MUTATING_METHODS, **({'bound': cbound} if cbound is not None else {}))
     if name == 'append' and ra is not None and ra.kind == 'list' and len(pos) == 1 and self.class_of(recv) is None:
         self._rebind(node.func.value, T.mk_tuple(list(ra.args) + [pos[0]], 'list'), fr)
         return NONE
@@ -328,6 +339,11 @@ def method_call(self, recv, name, pos, kw, node, fr, star=None, dstar=None):
         return NONE if name not in ('pop', 'setdefault', 'popitem') else T.mk_call('.' + name, [recv] + pos, kw)
     if name in ('get',) and pos:
         return T.mk_call('.get', [recv] + pos, kw)
+    if cbound is not None:
+        # canonical application: every formal of the (unique) package signature in declaration order
+        formals = cands[0].all_params()[1:]
+        if all(p_ in cbound for p_ in formals):
+            return T.mk_call('.' + name, [recv] + [cbound[p_] for p_ in formals], [])
     return T.mk_call('.' + name, [recv] + pos, kw)
 
 
